@@ -9,13 +9,14 @@ The token formats are those of `harness/gen-run/src/md.rs`.
 
 Answer:  `md=<hex model .md>` or `md=panic:<hex message>`
          TAB `ev=<event tokens of Md.rewrite hrefs events>`   (hrefs = the model's table)
-         TAB `spec: nest=<ok|fail> safe=<ok|no> evnest=<ok|fail> hrefs=<ok|fail:hex,hex…> docs=<ok|fail:hex,hex…>`
+         TAB `spec: nest=<ok|fail> safe=<ok|no> evnest=<ok|fail> hrefs=<ok|fail:hex,hex…> docs=<ok|fail:hex,hex…> pdocs=<ok|fail>`
   the `spec:` part is the C29 monitors (`MdSpec`) evaluated on the REAL `.md` / `.html` / parsed events:
     nest   = `tokNoNested 0 (scan html)`           no `<a>` inside an `<a>` in the real HTML
     safe   = `htmlSafe 0 false events`             (classification: input condition of the HTML-level theorem)
     evnest = `noNested 0 events`                   (assumption on pulldown-cmark: no nested markdown links)
     hrefs  = `hrefsDefined (scan html)`            dangling fragments listed
     docs   = `docsVerbatim md world`               missing doc comments listed
+    pdocs  = `printedDocsVerbatim md world`        (classification: the doc comments the generator has a `docs` call for)
 -/
 open Witverif.Text Witverif.Text.Md Drivers
 
@@ -181,7 +182,8 @@ def handle (line : String) : String :=
         " safe=" ++ (if MdSpec.htmlSafe 0 false evs then "ok" else "no") ++
         " evnest=" ++ (if MdSpec.noNested 0 evs then "ok" else "fail") ++
         " hrefs=" ++ (if MdSpec.hrefsDefined toks then "ok" else "fail:" ++ hexList (MdSpec.dangling toks)) ++
-        " docs=" ++ (if MdSpec.docsVerbatim md w then "ok" else "fail:" ++ hexList (MdSpec.missingDocs md w))
+        " docs=" ++ (if MdSpec.docsVerbatim md w then "ok" else "fail:" ++ hexList (MdSpec.missingDocs md w)) ++
+        " pdocs=" ++ (if MdSpec.printedDocsVerbatim md w then "ok" else "fail")
       match gen w with
       | .ok st =>
         "md=" ++ charsToHex st.src.s ++ "\tev=" ++ " ".intercalate ((rewrite st.hrefs evs).map showEv) ++ "\t" ++ spec
